@@ -858,7 +858,7 @@ impl Number {
                 Number::BigInt(rhs) => Some((BigInt::from(lhs.to_i64().unwrap()) / &**rhs).into()),
                 Number::Rational(rhs) => {
                     if rhs.is_integer() {
-                        Some((lhs / rhs).into())
+                        Some((lhs / rhs).trunc().into())
                     } else {
                         None
                     }
